@@ -9,7 +9,7 @@
 #endif
 struct docwin { unsigned char wb[DOCWIN]; unsigned char* win; size_t wlen; const unsigned char* data; size_t size; size_t pos; };
 static void docwin_init(struct docwin* d) {
-  d->size = nondet_size_t(); __CPROVER_assume(d->size <= ((size_t)1 << 62));   /* documents up to 2^62 bytes */
+  d->size = nondet_size_t(); __CPROVER_assume(d->size <= ((size_t)1 << 54));   /* documents up to 2^54 bytes (CBMC pointer offsets have 56 bits) */
   d->pos = nondet_size_t(); __CPROVER_assume(d->pos <= d->size);
 #ifdef VERIF_SMALL_CE
   __CPROVER_assume(d->size - d->pos <= 4096);   /* only while extracting a counterexample that the native replay can materialise */
